@@ -79,4 +79,12 @@ theorem readVec16_flatMap {α β : Type} (elem : Rd α) (enc : β → Bytes) (va
     readVec16 elem (be16 xs.length ++ xs.flatMap enc ++ r) = ok (xs.map val, r) := by
   simp [readVec16, List.append_assoc, u16_be16 _ hlen, readVec_flatMap elem enc val xs h]
 
+/-- the same with the input associated to the right -/
+theorem readVec16_flatMap' {α β : Type} (elem : Rd α) (enc : β → Bytes) (val : β → α) (xs : List β)
+    (hlen : xs.length < 65536)
+    (h : ∀ x ∈ xs, ∀ r, elem (enc x ++ r) = ok (val x, r)) (r : Bytes) :
+    readVec16 elem (be16 xs.length ++ (xs.flatMap enc ++ r)) = ok (xs.map val, r) := by
+  have := readVec16_flatMap elem enc val xs hlen h r
+  simpa [List.append_assoc] using this
+
 end ClassRead
